@@ -1,6 +1,6 @@
 SPECIFICATION Spec
 CONSTANTS
-  Hack = {"pair"}
+  Hack = {"undo", "pair"}
   MaxWrap = 3
   MaxRows = 7
   Emit = FALSE
